@@ -252,6 +252,12 @@ def features(text):
             break
     if re.search(r"@[\w-]+\s*[?*+](\s|\))", text):
         f.append("quantifier-after-capture")
+    # (the same class: a quantifier that follows another quantifier or a blank inside the pattern of a stanza)
+    for m in re.finditer(r"(^|\n)([^{}\n;]*(?:\n(?!\s*\{)[^{}\n;]*)*)\{", text):
+        pat = re.sub(r'"(?:\\.|[^"\\])*"', '""', m.group(2))
+        if re.search(r"[?*+]\s*[?*+]|[\s(][?*+]", pat):
+            f.append("quantifier-after-capture")
+            break
     return ",".join(f)
 
 
